@@ -186,6 +186,8 @@ def construct(c, xb, yb):
             try:
                 obj = _rfa.FunctionRFA(xb, yb, n)
             except ValueError:
+                if not c["n"] >= 2:
+                    raise            # an oversampling factor below 2 is refused at construction, as for every strategy
                 raise RuntimeError("FunctionRFA without a supplier refused at construction (the hook can no longer be set on the object)")
             obj._get_sampling_function = lambda: poly_supplier(obj.x, obj.y)
             return obj
